@@ -37,6 +37,11 @@ def lattice_matrices():
     out['ortho457_rot180'] = out['ortho457'] @ r180.T
     out['hex558_rotz'] = np.round(out['hex558'] @ rz.T, 9)
     out['unit'] = np.eye(3)
+    # two extra pseudo-random triclinic cells selected by VERIF_SEED (used by the thorough tier of the polynomial-identity jobs)
+    import os
+    seed = int(os.environ.get('VERIF_SEED', '0') or 0)
+    out['rand_a'] = random_lattice(1000 + 2 * seed)
+    out['rand_b'] = random_lattice(1001 + 2 * seed)
     return out
 
 
